@@ -1,5 +1,6 @@
 import MqttVerif.Model.Basic
 import MqttVerif.Model.Prim
 import MqttVerif.Model.Pdu
+import MqttVerif.Spec.Wire
 import MqttVerif.Proofs.Prim
 import MqttVerif.Proofs.Pdu
